@@ -2138,7 +2138,8 @@ class tensor:
         for element in subs:
             if isinstance(element, slice):
                 if element.stop is None:
-                    sliceCheck.append(1)
+                    # Open ended slice covers the current extent, no growth needed
+                    sliceCheck.append(0)
                 else:
                     sliceCheck.append(element.stop - 1)
             elif isinstance(element, Iterable):
